@@ -100,6 +100,9 @@ pub enum WireFault {
     /// flip one bit of the signature at a raw position
     SigBit { pos: Frac, bit: u8 },
     SigByte { pos: Frac, val: u8 },
+    /// flip one bit at an exact byte offset of the signature / public key
+    SigBitAt { byte: usize, bit: u8 },
+    PkBitAt { byte: usize, bit: u8 },
     /// flip a bit inside a selected field
     FieldBit { field: Field, pos: Frac, bit: u8 },
     /// overwrite a 4-byte field with a value
